@@ -43,12 +43,22 @@ def head(node, n=140):
 
 
 class Module(object):
-    def __init__(self, relpath, text):
+    def __init__(self, relpath, text, canon=True):
         self.relpath = relpath
         self.text = text
+        self.renamed = 0
         with warnings.catch_warnings():
             warnings.simplefilter('ignore')
             self.tree = ast.parse(text, filename=relpath)
+        self.normalized = {}
+        if canon:
+            # behaviour-preserving rewrites toward the pinned spelling (new helpers inlined, new constants substituted, locals
+            # renamed back); the identity when the text equals the pinned text.  See normalize.py.
+            from . import normalize as _normalize
+            try:
+                self.normalized = _normalize.normalize(relpath, text, self.tree)
+            except RecursionError:
+                self.tree = ast.parse(text, filename=relpath)
         for parent in ast.walk(self.tree):
             for child in ast.iter_child_nodes(parent):
                 child._parent = parent
@@ -127,8 +137,9 @@ class Module(object):
 
 
 class Source(object):
-    def __init__(self, root=None, overlay=None):
+    def __init__(self, root=None, overlay=None, canon=True):
         self.root = root or PKGROOT
+        self.canon = canon
         self.overlay = dict(overlay or {})
         self._mods = {}
         self._all = None
@@ -160,7 +171,7 @@ class Source(object):
         m = self._mods.get(relpath)
         if m is None:
             try:
-                m = Module(relpath, self.text(relpath))
+                m = Module(relpath, self.text(relpath), canon=getattr(self, 'canon', True))
             except SyntaxError as e:
                 raise AnalysisError('cannot parse %s: %s' % (relpath, e))
             self._mods[relpath] = m
